@@ -282,6 +282,82 @@ pub fn run(data: &[u8], ctx: &mut Ctx) -> Outcome {
             }
         }
     }
+    // --- share envelopes as their holders may keep them (drawn last): two or more shares merged into one
+    // envelope, and 'sskrShare' assertions that carry a salt or a holder's note. The shares are the same,
+    // so the outcome is the quorum rule over the shares present.
+    if src.chance(80) && n <= 12 {
+        let share_assertion = |e: &Envelope| -> Option<Envelope> { e.assertions_with_predicate(bc_envelope::known_values::SSKR_SHARE).first().cloned() };
+        for round in 0..4 {
+            // a generated subset
+            let mut subset: Vec<usize> = (0..n).filter(|_| src.bool()).collect();
+            if subset.is_empty() {
+                subset.push(src.below(n));
+            }
+            let mut present = vec![0usize; groups.len()];
+            for i in &subset {
+                present[flat[*i].0] += 1;
+            }
+            let want_ok = present.iter().zip(groups.iter()).filter(|(p, g)| **p >= g.0).count() >= group_threshold;
+            let style = src.below(3);
+            let held: Vec<Envelope> = match style {
+                0 => {
+                    // merged: every share of the subset carried by ONE envelope (the first one)
+                    let mut carrier = flat[subset[0]].1.clone();
+                    for i in &subset[1..] {
+                        if let Some(a) = share_assertion(&flat[*i].1) {
+                            carrier = carrier.add_assertion_envelope(a).unwrap();
+                        }
+                    }
+                    vec![carrier]
+                }
+                1 => {
+                    // pairs merged two by two
+                    subset
+                        .chunks(2)
+                        .map(|c| {
+                            let mut carrier = flat[c[0]].1.clone();
+                            if c.len() == 2 {
+                                if let Some(a) = share_assertion(&flat[c[1]].1) {
+                                    carrier = carrier.add_assertion_envelope(a).unwrap();
+                                }
+                            }
+                            carrier
+                        })
+                        .collect()
+                }
+                _ => {
+                    // every 'sskrShare' assertion decorated: salted, or with a holder's note
+                    subset
+                        .iter()
+                        .map(|i| {
+                            let s = &flat[*i].1;
+                            match share_assertion(s) {
+                                Some(a) => {
+                                    let decorated = if *i % 2 == 0 { a.add_salt() } else { a.add_assertion("heldBy", format!("holder {}", i)) };
+                                    s.replace_assertion(a, decorated).unwrap()
+                                }
+                                None => s.clone(),
+                            }
+                        })
+                        .collect()
+                }
+            };
+            let sname = ["merged-into-one", "merged-in-pairs", "decorated-share-assertions"][style];
+            ctx.class(&format!("held:{}:{}", sname, if want_ok { "quorum" } else { "no-quorum" }));
+            let refs: Vec<&Envelope> = held.iter().collect();
+            let r = nopanic!(ctx, Envelope::sskr_join(&refs), "held", "C11/held");
+            match r {
+                Ok(j) => {
+                    check!(ctx, want_ok, "held", "C11/held/without-quorum", "join of {} share envelopes succeeded without a quorum (policy {}, shares of groups {:?})", sname, policy, present);
+                    check!(ctx, j.to_cbor_data() == expected_subject_bytes, "held", "C11/held/different-envelope", "join of {} share envelopes returned something other than the original subject", sname);
+                }
+                Err(err) => {
+                    check!(ctx, !want_ok, "held", "C11/held/quorum-fails", "join of {} share envelopes failed although the shares present satisfy the policy {} (per group {:?}): {}", sname, policy, present, err);
+                }
+            }
+            let _ = round;
+        }
+    }
     let _ = e.digest();
     ctx.nontrivial = at_boundary > 0 && below_boundary > 0;
     Outcome::Pass
